@@ -1,7 +1,7 @@
 """Configuration of ./check for C10 (see tools/props.py)."""
 ENTRY = {'coq_dir': 'C10',
  'harness': 'c10',
- 'cases': {'quick': 330, 'thorough': 2500},
+ 'cases': {'quick': 330, 'thorough': 2200},
  'consts': ['MAX_ADDRESSES',
             'SCORE_CONNECTION_ESTABLISHED',
             'SCORE_CONNECTION_FAILURE_NEG',
@@ -139,7 +139,7 @@ ENTRY = {'coq_dir': 'C10',
                 'features': 'quic,rsa',
                 'target_dir': 'target-quic',
                 'args': '',
-                'cases': {'quick': 110, 'thorough': 1200},
+                'cases': {'quick': 110, 'thorough': 900},
                 'corpus': 'corpus/C10-aux'},
  'coq_deps': ['C14'],
  'clause_map': [['an address offered for a peer is remembered only if it names that peer',
